@@ -98,6 +98,9 @@ def feasible(state, conds):
     """False only if facts and conds are certainly contradictory."""
     if not conds:
         return True
+    for c in conds:
+        if c.is_const() and c.c < 0:
+            return False
     f = state.facts
     syms = set()
     for c in conds:
@@ -114,3 +117,23 @@ def feasible(state, conds):
 
 def _l(x):
     return x if isinstance(x, Lin) else Lin.const(x)
+
+
+def consistent(state, extra=()):
+    """False only if the facts (plus extra >= 0 constraints) certainly have no integer solution.
+    Uses all facts (no cone), with case symbols expanded."""
+    f = state.facts
+    syms = set()
+    for l in f.ge + f.eq + list(extra):
+        syms |= l.syms()
+    for c in extra:
+        if c.is_const() and c.c < 0:
+            return False
+    for cge, ceq in _expand_cases(state, syms):
+        if infeasible(f.ge + cge + list(extra), f.eq + ceq, frozenset(f.reals)) is not True:
+            # also try min/max case splits
+            sub = Facts()
+            sub.ge, sub.eq, sub.atoms, sub.reals = f.ge + cge + list(extra), f.eq + ceq, f.atoms, set(f.reals)
+            if sub.consistent():
+                return True
+    return False
